@@ -40,6 +40,7 @@ type vecRev struct {
 	chain          []*x509.Certificate
 	st             time.Time
 	errWithResults bool          // the validator error comes TOGETHER with a (complete, well-formed) result vector
+	lastSrvOK      bool          // several per-server entries, the LAST of which says OK whatever the certificate-level verdict is (a second distribution point that answered)
 	noSrv          bool          // verdicts only: no per-server results at all (a validator need not consult servers to know)
 	shape          string        // "": one entry per certificate; nil-entry-first / nil-entry-last / empty / shorter / longer: a vector that does not report on every certificate
 	delay          time.Duration // answer only after this long (a slow responder)
@@ -61,6 +62,10 @@ func (r *vecRev) ValidateContext(ctx context.Context, o revocation.ValidateConte
 		if r.srvErr {
 			sr[0].Error = errors.New("server error")
 			sr = append(sr, &result.ServerResult{Result: v, Server: "http://crl/" + fmt.Sprint(i), RevocationMethod: result.RevocationMethodCRL, Error: errors.New("second server error")})
+		}
+		if r.lastSrvOK {
+			sr = append(sr, &result.ServerResult{Result: v, Server: "http://crl-a/" + fmt.Sprint(i), RevocationMethod: result.RevocationMethodCRL},
+				&result.ServerResult{Result: result.ResultOK, Server: "http://crl-b/" + fmt.Sprint(i), RevocationMethod: result.RevocationMethodCRL})
 		}
 		if r.noSrv {
 			sr = nil
@@ -244,7 +249,7 @@ func main() {
 		if c.Scheme != "notary.x509" {
 			storeType = "signingAuthority"
 		}
-		rv := &vecRev{vec: c.Vec, err: c.VErr, methods: c.Methods, srvErr: c.SrvErr, noSrv: i%5 == 2, errWithResults: i%2 == 1}
+		rv := &vecRev{vec: c.Vec, err: c.VErr, methods: c.Methods, srvErr: c.SrvErr, noSrv: i%5 == 2, lastSrvOK: i%5 == 4 || i%7 == 3, errWithResults: i%2 == 1}
 		var dualCtxCalls int32
 		// every seventh case goes through the blob interface: the same level (with its revocation override) from a blob statement
 		blobPath := i%7 == 3 && !tiPlugin
